@@ -14,7 +14,8 @@ RUNS = {"quick": 5000, "thorough": 90000}
 RULE_TEXT = ("one run = one seeded history (6-28 ops) against one real CertificateLibrary + VerifyService: add_root / add_aa / add_at / "
              "add_own / verify_sequence_of_certificates calls and received signed messages mixing a genuine root->AA->tickets PKI (made by "
              "the repo's issuing API) with forged, re-signed, permission-escalated, wrongly-issued, expired and edited certificates, the "
-             "virtual clock stepping across ticket validity periods, plus issuing-API calls over issuer/subject PSID sets and chain-length "
+             "virtual clock stepping across ticket validity periods (durations spelled in every unit of the Duration CHOICE), tickets whose "
+             "appPermissions is empty or absent, certificates with crafted signature / key encodings, plus issuing-API calls over issuer/subject PSID sets and chain-length "
              "budgets; after every op the AA/AT stores are re-verified by an independent chain verifier (raw ecdsa + OER coder); "
              "non-trivial = at least one library / verify / issuing call executed; distinct = distinct abstract traces "
              "(sequence of (op, API method, certificate kind, outcome))")
@@ -49,6 +50,10 @@ EXPECTED_PROBES = [
     "clock:crossed-start", "clock:crossed-end", "issue:verified", "issue:refused", "issue:verified-contained", "issue:refused-not-contained",
     "issue:issuer-all", "issue:issuer-explicit", "issue:issuer-not-ca", "issue:subject-ca", "issue:subject-at", "issue:budget-exhausted",
     "issue:subject-beyond-psids", "issue:three-level",
+    "offered:crafted-encoding", "offered:edited:sig-form", "offered:edited:sig-alg", "offered:edited:key-form",
+    "offered:empty-app-at", "offered:no-app-at", "ticket-empty-app-permissions", "ticket-without-app-permissions",
+    "validity-unit:microseconds", "validity-unit:milliseconds", "validity-unit:seconds", "validity-unit:minutes", "validity-unit:hours",
+    "validity-unit:sixtyHours", "validity-unit:years",
 ]
 
 N0 = sc.its_s(sc.DEFAULT_NOW_UNIX)
@@ -65,6 +70,8 @@ def pki_params(v: int) -> dict:
     sets = [sorted(r.sample(POOL, r.randint(1, 3))) for _ in range(n)]
     if v % 2 == 0:
         sets[0] = sorted(set(sets[0]) | {36, 37})
+    if v % 6 == 2:
+        sets[-1] = []                         # a genuine ticket (issued through the repo's API) whose appPermissions is present but empty
     union = sorted(set().union(*sets))
     c = r.random()
     if c < 0.2:
@@ -87,6 +94,9 @@ def pki_params(v: int) -> dict:
         else:
             w = [-3600, ["years", 1]]
         windows.append(w)
+    if v % 6 == 5:
+        k = 1 + (v // 6) % 2                  # a ticket valid for k sixtyHours units that ends shortly before / after N0
+        windows[-1] = [-216000 * k + (900, -400, 3000, 120)[(v // 6) % 4], ["sixtyHours", k]]
     return {"seed": v, "n": n, "psid_sets": sets, "aa_psids": aa, "tickets_validity": windows, "now": N0,
             "root_min_chain": r.choice([2, 2, 2, 3]), "root_chain_range": r.choice([0, 0, 1, -1])}
 
@@ -124,6 +134,10 @@ def _rand_sub_ca(r, pk) -> dict:
 
 
 def _rand_validity(r, pk, t_rel: float) -> dict:
+    return _respell_validity(_rand_validity_v1(r, pk, t_rel), t_rel)
+
+
+def _rand_validity_v1(r, pk, t_rel: float) -> dict:
     """AT properly signed by the genuine AA with a validity chosen relative to the run's current clock (t_rel from N0)."""
     c = r.random()
     psids = r.choice(pk["psid_sets"])
@@ -135,6 +149,31 @@ def _rand_validity(r, pk, t_rel: float) -> dict:
                 "psids": psids, "label": "not-yet-valid"}
     return {"k": "validity", "start_off": int(t_rel - r.choice([30, 300])), "dur": ["seconds", r.choice([90, 600, 2400])],
             "psids": psids, "label": "valid-window"}
+
+
+_UNIT_COUNTS = {"microseconds": [1000, 50000, 65535], "milliseconds": [1000, 30000, 65535], "seconds": [60, 600, 3000, 40000],
+                "minutes": [5, 60, 600], "hours": [1, 12, 48], "sixtyHours": [1, 2], "years": [1]}
+
+
+def _respell_validity(spec: dict, t_rel: float) -> dict:
+    """Spell the validity of a `_rand_validity` ticket in any unit of the Duration CHOICE, the window edge that matters for the label
+    30 / 300 / 5000 s away from the run clock.  Decided by a PRNG derived from the spec itself, so the plan stream is not consumed."""
+    r2 = random.Random((int(spec["start_off"]) * 7919 + int(spec["dur"][1]) * 104729 + len(spec["label"])) ^ 0x0D12A7)
+    if r2.random() < 0.35:
+        return spec
+    unit = r2.choice(sorted(_UNIT_COUNTS))
+    n = r2.choice(_UNIT_COUNTS[unit])
+    off = r2.choice([30, 300, 5000])
+    length = n * sc._DUR_S[unit]
+    if spec["label"] == "expired":
+        start = t_rel - off - length          # ended `off` seconds ago
+    elif spec["label"] == "not-yet-valid":
+        start = t_rel + off
+    else:
+        start = t_rel - min(off, max(1.0, length / 2))
+    out = dict(spec)
+    out["start_off"], out["dur"] = int(start), [unit, n]
+    return out
 
 
 EDIT_FIELDS = ["psid", "start", "duration", "id", "issuer", "sig-s", "sig-r", "version", "min-chain"]
@@ -199,7 +238,7 @@ def rand_cert(r, pk, role: str, t_rel: float, depth: int = 0) -> dict:
 
 
 def _has_key(spec: dict) -> bool:
-    return spec["k"] in ("g", "atk", "esc-at", "sub-ca", "child", "by-ticket", "validity", "key-swapped", "resigned-atk") or \
+    return spec["k"] in ("g", "atk", "esc-at", "sub-ca", "child", "by-ticket", "validity", "key-swapped", "resigned-atk", "crafted", "empty-app") or \
         (spec["k"] == "resigned" and spec.get("swap", True))
 
 
@@ -215,6 +254,10 @@ def _spec_window(spec: dict, pk) -> tuple[float, float] | None:
 def _spec_psids(spec: dict, pk) -> list[int]:
     if spec["k"] == "g" and spec["role"] == "at":
         return pk["psid_sets"][spec["i"] % pk["n"]]
+    if spec["k"] == "empty-app":
+        return []
+    if spec["k"] == "crafted" and not spec.get("own_tbs"):
+        return pk["psid_sets"][spec.get("i", 0) % pk["n"]] if spec.get("role") == "at" else []
     ps = spec.get("psids")
     return list(ps) if isinstance(ps, list) else list(sc.DEFAULT_PSIDS)
 
@@ -324,7 +367,7 @@ def gen_plan(run_seed: int, tier: str) -> dict:
         elif c < w_add + w_msg:
             if r.random() < 0.4:
                 i = r.randrange(n)
-                psid = r.choice(pk["psid_sets"][i])
+                psid = r.choice(pk["psid_sets"][i] or POOL)
                 profile = "cam" if psid == 36 else ("denm" if psid == 37 else "other")
                 if profile == "other" and r.random() < 0.15:
                     profile = "cam"
@@ -356,7 +399,61 @@ def gen_plan(run_seed: int, tier: str) -> dict:
                 dt = r.choice([600, 1800, 3600, 86400])
             t_rel += dt
             ops.append({"op": "advance", "dt_s": dt})
+    ops.extend(_second_stream(run_seed, pk, wins, t_rel))
     return {"engine": ENGINE, "property": ID, "config": cfg, "ops": ops}
+
+
+def _plain_msg(spec: dict, psid: int, form: str, gen_n0_s: float, payload_tag: int) -> dict:
+    return {"op": "message", "via": "forge", "cert": spec, "key": "own", "form": "certificate" if psid == 37 else form, "psid": psid,
+            "gen_n0_s": round(gen_n0_s, 3), "loc": psid == 37, "mode": "plain", "payload": bytes([payload_tag & 0xFF, psid & 0xFF, 0x5E]).hex()}
+
+
+def _second_stream(run_seed: int, pk: dict, wins: list, t_rel: float) -> list[dict]:
+    """Ops appended by features added after the first generator (own PRNG, so that earlier plans keep their shape):
+    (1) certificates with crafted signature / key encodings offered to the library and used as message signers,
+    (2) tickets whose appPermissions is empty (genuine, through the issuing API, when the PKI variant has one; hand-built under the
+        genuine AA otherwise) or absent, and messages signed by them for several ITS-AIDs with certificate and digest signers."""
+    r2 = random.Random(run_seed ^ 0xC09E7A)
+    n = pk["n"]
+    out: list[dict] = []
+
+    def mid(i):                                   # a generation time well inside genuine ticket i's validity (or now)
+        s, e = wins[i % n]
+        return s + (e - s) / 2 if e - s > 4 * MARGIN_S else t_rel
+
+    if r2.random() < 0.3:
+        role = r2.choice(["at", "at", "at", "aa"])
+        i = r2.randrange(n)
+        if r2.random() < 0.6:
+            alg = r2.choice(sc.SIG_ALGS) if r2.random() < 0.4 else sc.SIG_ALGS[0]
+            spec = {"k": "crafted", "role": role, "i": i, "alg": alg, "r_form": r2.choice(sc.R_FORMS[1:] if alg == sc.SIG_ALGS[0] else sc.R_FORMS),
+                    "rs": r2.choice(["random", "copied"]), "key_form": r2.choice(sc.KEY_FORMS), "own_tbs": role == "at" and r2.random() < 0.3,
+                    "tag": r2.randrange(3)}
+        else:
+            spec = {"k": "edited", "role": role, "i": i, "field": r2.choice(["sig-form", "sig-alg", "key-form"]), "v": r2.randint(1, 9)}
+        c = r2.random()
+        if c < 0.55:
+            out.append({"op": "add", "api": "add_at" if role == "at" else "add_aa", "cert": spec, "issuer": r2.choice(["proper", "proper", "lib"])})
+        elif c < 0.75:
+            out.append({"op": "verify_chain", "chain": [spec] if role == "at" else [{"k": "g", "role": "at", "i": i}, spec]})
+        if role == "at" and spec["k"] == "crafted":
+            inside = (list(sc.DEFAULT_PSIDS) if spec["own_tbs"] else pk["psid_sets"][i]) or [36]
+            g = t_rel if spec["own_tbs"] else mid(i)
+            out.append(_plain_msg(spec, r2.choice(inside), "certificate", g, 1))
+            if r2.random() < 0.6:
+                out.append(_plain_msg(spec, r2.choice(inside), "digest", g, 2))
+    empties = [j for j in range(n) if not pk["psid_sets"][j]]
+    if r2.random() < (0.5 if empties else 0.12):
+        if empties and r2.random() < 0.7:
+            j = r2.choice(empties)
+            spec, g = {"k": "g", "role": "at", "i": j}, mid(j)
+        else:
+            spec, g = {"k": "empty-app", "absent": r2.random() < 0.35, "start_off": int(t_rel) - 3600, "dur": ["years", 1], "tag": r2.randrange(2)}, t_rel
+        if r2.random() < 0.7:
+            out.append({"op": "add", "api": "add_at", "cert": spec, "issuer": "proper"})
+        for k in range(r2.randint(2, 4)):
+            out.append(_plain_msg(spec, r2.choice([36, 36, 37, 99, 638, 139, 0]), "certificate" if k % 2 == 0 else "digest", g, 10 + k))
+    return out
 
 
 def _forge_msg(r, pk, spec: dict, t_rel: float, form: str | None = None) -> dict:
@@ -547,6 +644,11 @@ class Oracle:
             return
         ap = sc.app_psids(ticket)
         inside = ap is not None and pm.psid in ap
+        if ap is None:
+            # no application permissions at all: the ITS-AID cannot be among them, acceptance is judged like any other outside ITS-AID
+            sim.probe("ticket-without-app-permissions")
+        elif not ap:
+            sim.probe("ticket-empty-app-permissions")
         sim.probe("msg-psid:" + ("inside" if inside else "outside"))
         side = None
         if pm.generation_time is not None:
@@ -561,6 +663,8 @@ class Oracle:
             else:
                 side = "boundary"
             sim.probe("msg-gen:" + side)
+            if side in ("before", "after"):
+                sim.probe("validity-unit:" + str(ticket["toBeSigned"]["validityPeriod"]["duration"][0]))
         if not success:
             return
         conf = rec["confirm"]
